@@ -17,10 +17,11 @@ LEVEL = 'exploration'
 RULE = ('Runs are (a) query histories on real thermodynamics objects (Al-Zr binary: driving force with all four methods scalar/batched, interfacial composition scalar/array g and array T, '
         'inter-/tracer diffusivity; Ni-Cr-Al ternary: driving force, curvature factor, growth & interfacial composition, impingement factor, diffusivities), 5-30 queries with temperature jumps 0-300 K, '
         'composition jumps across the solvus, removeCache either way and interleaved clearCache(); each answer compared with a fresh twin, repeated immediately, batched vs single, arguments compared bitwise before/after; '
+        'Fe-Cr-Ni (two solution phases with mobility data): inter-/tracer diffusivity addressed to either phase; '
         '(b) HashTable machines: 5-40 ops from {enableCaching, setHashSensitivity(1..6), add, retrieve, clearCache} with (x,T) clusters straddling rounding boundaries; '
         '(c) diffusion runs with useCache(False) vs cache on at precision 8. Non-trivial = at least 5 compared queries (a), 5 retrieves (b), 10 steps (c); distinct = distinct record digest; '
         'signature = (kind, database, methods used, cache drops, batch).')
-ASSUMPTIONS = ['Warm vs fresh tolerance: 1e-7 relative (energy-like results: 1e-6 relative + 1e-4 J/mol) (+1e-6 J/mol absolute on energies, 1e-10 on compositions); both objects are built from the same database with the same sampling densities.',
+ASSUMPTIONS = ['Diffusivities (m2/s) are compared purely relatively: 1e-6 of the largest matrix entry.', 'Warm vs fresh tolerance: 1e-7 relative (energy-like results: 1e-6 relative + 1e-4 J/mol) (+1e-6 J/mol absolute on energies, 1e-10 on compositions); both objects are built from the same database with the same sampling densities.',
                'Hash sensitivities 1..9 are generated (reference keys are exact integers).',
                'Diffusion in-situ comparison: cache off vs cache on at precision 6, agreement 1e-5 relative (nodes closer than 1e-6 may share a key by design).']
 COMPONENTS = {'real': ['kawin.thermo.BinaryThermodynamics / MulticomponentThermodynamics / GeneralThermodynamics + pycalphad', 'kawin.thermo.LocalEquilibrium', 'kawin.diffusion.DiffusionParameters.HashTable', 'kawin.diffusion.SinglePhase (in situ)'],
